@@ -430,36 +430,84 @@ func dupFreeSlice(fv *ssa.FreeVar) (bool, string) {
 		return false, "not a local cell"
 	}
 	nApp := 0
-	for _, st := range storesInto(cell) {
-		switch v := st.Val.(type) {
-		case *ssa.Slice: // make([]T, 0, n) lowered to new [n]T + slice
-			if hi, ok := core.ConstInt(v.High); !ok || hi != 0 {
-				if v.High != nil {
-					return false, "initialised from a non-empty slice"
-				}
-			}
-		case *ssa.MakeSlice:
-			if l, ok := core.ConstInt(v.Len); !ok || l != 0 {
-				return false, "initialised non-empty"
-			}
-		case *ssa.Call:
-			bi, ok := v.Call.Value.(*ssa.Builtin)
-			if !ok || bi.Name() != "append" {
-				return false, "assigned from a call"
-			}
-			nApp++
-			// appended element: key extracted from a map range
-			if !appendsMapKey(v) {
-				return false, "appends something other than the key of a map iteration"
-			}
-		default:
-			return false, "assigned from " + v.String()
-		}
+	ok2, why := dupFreeCell(cell, map[ssa.Value]bool{}, &nApp)
+	if !ok2 {
+		return false, why
 	}
 	if nApp == 0 {
 		return false, "never appended to"
 	}
 	return true, "built by appending the keys of a map iteration (pairwise distinct)"
+}
+
+// dupFreeCell: every value stored into the cell is a duplicate-free slice.
+func dupFreeCell(cell *ssa.Alloc, seen map[ssa.Value]bool, nApp *int) (bool, string) {
+	if seen[cell] {
+		return true, ""
+	}
+	seen[cell] = true
+	sts := storesInto(cell)
+	if len(sts) == 0 {
+		return false, "never assigned"
+	}
+	for _, st := range sts {
+		if ok, why := dupFreeValue(st.Val, seen, nApp); !ok {
+			return false, why
+		}
+	}
+	return true, ""
+}
+
+// dupFreeValue: v is a slice whose elements are pairwise distinct: empty, or grown only by appending the keys of a
+// map iteration (in a variable, a phi, or through the result of an inlined helper).
+func dupFreeValue(v ssa.Value, seen map[ssa.Value]bool, nApp *int) (bool, string) {
+	if seen[v] {
+		return true, ""
+	}
+	seen[v] = true
+	switch x := v.(type) {
+	case *ssa.Slice: // make([]T, 0, n) lowered to new [n]T + slice
+		if x.High != nil {
+			if hi, ok := core.ConstInt(x.High); !ok || hi != 0 {
+				return false, "initialised from a non-empty slice"
+			}
+			return true, ""
+		}
+		return false, "initialised from a slice expression"
+	case *ssa.MakeSlice:
+		if l, ok := core.ConstInt(x.Len); !ok || l != 0 {
+			return false, "initialised non-empty"
+		}
+		return true, ""
+	case *ssa.Const:
+		if x.IsNil() {
+			return true, ""
+		}
+	case *ssa.Call:
+		bi, ok := x.Call.Value.(*ssa.Builtin)
+		if !ok || bi.Name() != "append" {
+			return false, "assigned from a call"
+		}
+		*nApp++
+		if !appendsMapKey(x) {
+			return false, "appends something other than the key of a map iteration"
+		}
+		return dupFreeValue(x.Call.Args[0], seen, nApp)
+	case *ssa.Phi:
+		for _, e := range x.Edges {
+			if ok, why := dupFreeValue(e, seen, nApp); !ok {
+				return false, why
+			}
+		}
+		return true, ""
+	case *ssa.UnOp:
+		if x.Op == token.MUL {
+			if cell, ok := x.X.(*ssa.Alloc); ok {
+				return dupFreeCell(cell, seen, nApp)
+			}
+		}
+	}
+	return false, "assigned from " + v.String()
 }
 
 func appendsMapKey(app *ssa.Call) bool {
